@@ -66,6 +66,14 @@ def r1_key(chk, repo):
             SFX = b["L_sfx"]
     sx = [n for n in cfg.stmt_nodes() if isinstance(n.stmt, ast.Assign) and SFX and norm(n.stmt.targets[0]) == SFX and not (isinstance(n.stmt.value, ast.Constant))]
     chk.check(bool(sx) and all(("self.is_superrun", True) in cfg.guard_facts(n) and "deterministic_hash" in norm(n.stmt.value) and "self.subruns" in norm(n.stmt.value) for n in sx), "C14.R1", f, None, "superrun keys do not include a hash of the subrun specification: redefining the superrun would load stale data", site_text="DataKey._run_id: suffix = hash((subruns, combining)) for superruns", site={"function": f.qualname, "construct": "suffix"})
+    for n in sx:
+        hc = [c for c in calls_in(n.stmt) if (call_name(c) or "").endswith("deterministic_hash")]
+        whole = False
+        for c in hc:
+            a = c.args[0] if c.args else None
+            elems = a.elts if isinstance(a, (ast.Tuple, ast.List)) else [a] if a is not None else []
+            whole = whole or any(norm(e) == "self.subruns" for e in elems)
+        chk.check(whole, "C14.R1", f, n.stmt, "what is hashed into the key is a projection of the subrun specification (e.g. only its run ids), not the specification itself: redefining a superrun with the same runs but other time ranges keeps the key, and the stale data is loaded", site_text="DataKey._run_id: the whole self.subruns mapping is hashed", site={"function": f.qualname, "construct": "whole specification hashed"})
     rets = [n for n in walk_body(f.node) if isinstance(n, ast.Return)]
     chk.check(bool(rets) and SFX is not None and all(norm(r.value) == f"self.run_id + {SFX}" for r in rets), "C14.R1", f, None, "the suffix is not part of the key", site_text="DataKey._run_id: run_id + suffix")
     rep = dk.methods["__repr__"]
@@ -234,6 +242,8 @@ def r6_annotations(chk, repo):
 
 
 WITNESSES = [
+    W("only the run ids of the specification are hashed", "C14.R1", COMMON,
+      "strax.deterministic_hash((self.subruns, self.combining))", "strax.deterministic_hash((tuple(self.subruns), self.combining))"),
     W("subruns dropped from the key suffix", "C14.R1", COMMON,
       "suffix = \"_\" + strax.deterministic_hash((self.subruns, self.combining))", "suffix = \"_\" + strax.deterministic_hash((self.combining,))"),
     W("get_data_key passes no subruns", "C14.R1", CONTEXT,
